@@ -665,7 +665,7 @@ impl Next<'_> {
 }
 
 // ------------------------------------------------------------------ the redirect middleware
-//@extract id=REDIRECT_CODES file=crux_http/src/middleware/redirect.rs item="const REDIRECT_CODES"
+//@extract id=REDIRECT_CODES file=crux_http/src/middleware/redirect.rs item="const REDIRECT_CODES" optional=1
 //@rule X1.const-contract 1 s~const REDIRECT_CODES: &(?:'static )?\[StatusCode\] = (&\[[^;]*\]);~exec const REDIRECT_CODES: &'static [StatusCode]\n    ensures forall|s: StatusCode| REDIRECT_CODES@.contains(s) <==> is_redirect(s), // [C16/REDIRECT_CODES/exactly-the-five-documented-redirect-statuses]\n{ let c: &'static [StatusCode] = \1; proof { redirect_codes_lemma(c@); } c }~
 //@end
 
